@@ -116,6 +116,9 @@ def gen_dispatch(tool):
     return out
 
 
+AST_ATTRS_T = "ast::attrs::Attrs"
+
+
 def run(ck, facts):
     core, tool, mac = facts.core, facts.tool, facts.macro
     adts = facts.all_adts()
@@ -316,6 +319,21 @@ def run(ck, facts):
                 e_c = [x["ctor"].split("::")[-1] for x in C.walk(n["e"]) if x.get("ctor", "").startswith(CFG)]
                 inner_ok = set(t_c) == {"Any"} and set(e_c) == {"All"}
     ck.expect(ok and inner_ok, "R3", "parse/keywords", str({k: sorted(v) for k, v in kw.items()}), "keyword -> constructor mapping changed: %s" % {k: sorted(v) for k, v in kw.items()}, C.loc(pf))
+    # the parser only BUILDS formula nodes; it never takes one apart (flattening `all(any(a, b), c)` into `all(a, b, c)` changes the truth table)
+    def _pats(n_):
+        if isinstance(n_, dict):
+            if n_.get("k") == "variant" and (n_.get("adt") or "") == CFG:
+                yield n_
+            for v_ in n_.values():
+                for r_ in _pats(v_):
+                    yield r_
+        elif isinstance(n_, list):
+            for v_ in n_:
+                for r_ in _pats(v_):
+                    yield r_
+    taken_apart = sorted({p_.get("v") for x in pf_nodes for key_ in ("pat", "arms", "params") if key_ in x for p_ in _pats(x[key_])})
+    ck.expect(not taken_apart, "R3", "parse/formula-built-not-rewritten", "no pattern on DiplomatBackendAttrCfg in the parser", "the condition parser matches on already parsed sub-formulas (%s) and rebuilds them: "
+              "the stored formula is not the one that was written (e.g. a nested `any(..)` spliced into its parent `all(..)`)" % taken_apart, C.loc(pf))
     all_ctors = [x["ctor"].split("::")[-1] for x in pf_nodes if x.get("ctor", "").startswith(CFG + "::")]
     ck.expect(set(all_ctors) == expected, "R3", "parse/constructs-all", str(sorted(set(all_ctors))), "parser constructs %s, evaluator interprets %s" % (sorted(set(all_ctors)), sorted(expected)), C.loc(pf))
 
@@ -515,6 +533,28 @@ def run(ck, facts):
                       "%s lowers the methods of a type even when the type is disabled for the backend (%s): a conditional `disable` on the type no longer keeps methods with unsupported shapes "
                       "(callbacks, options, ...) away from that backend's lowering, the run aborts" % (fname, guarded), C.loc(f))
 
+    # every AST constructor that receives its parent's attributes stores the parent's attributes PLUS the item's own (`add_attrs` on the value it stores): a `disable` / `rename`
+    # written on the item itself is what the per-backend evaluation has to see (sibling constructors: Method::from_syn, Struct::new, OpaqueType::new_struct / new_enum, Enum::new, Trait::new)
+    nown = 0
+    for f in core.fn_list:
+        if "hir" not in f or not f["path"].startswith("diplomat_core::ast::") or (f.get("impl_self") or "").endswith(AST_ATTRS_T):
+            continue
+        if not any("ast::attrs::Attrs" in (t_ or "") and (t_ or "").startswith("&") for t_ in f.get("inputs", [])):
+            continue
+        adds = {C.strip(n["recv"]).get("id") for n in C.walk(C.fn_body(f)) if n.get("k") == "mcall" and n.get("m") in ("add_attrs", "add_attr") and C.strip(n["recv"]).get("k") == "local"}
+        for n in C.walk(C.fn_body(f)):
+            if n.get("k") != "struct" or not (n.get("adt") or "").startswith("diplomat_core::ast::"):
+                continue
+            for fl in n["fields"]:
+                if fl["n"] != "attrs":
+                    continue
+                e = C.strip(fl["e"])
+                nown += 1
+                ck.expect(e.get("k") == "local" and e.get("id") in adds, "R6", "ast::%s/%s-own-attrs-added" % (C.norm_path(f["path"]).split("::", 2)[-1], (n.get("adt") or "").split("::")[-1]), "parent.clone() + add_attrs(item.attrs)",
+                          "%s stores attributes to which the item's own attributes were never added: a #[diplomat::attr(..)] written on this kind of item (not on its module) is ignored in every backend" % C.norm_path(f["path"]).split("::", 1)[-1], C.loc(f, n.get("ln")))
+    if nown < 6:
+        ck.bad("R6", "ast/own-attrs-floor", "only %d AST constructors storing inherited attributes found (7 counted)" % nown)
+
     # ---------------- R7 sibling independence (no attribute state carried from one item to the next)
     AST_ATTRS = "ast::attrs::Attrs"
     n7 = 0
@@ -544,6 +584,10 @@ def run(ck, facts):
                     elif kind in ("assign", "assignop"):
                         lhs = list(C.children(node))[0]
                         is_attr = any(y.get("k") == "field" and (y.get("bty") or "").replace("&mut ", "").replace("&", "").strip().endswith(AST_ATTRS) for y in C.walk(lhs))
+                        # a whole attribute set (AST or HIR level) re-assigned per item and read by the next one
+                        l0 = C.strip(lhs)
+                        if l0.get("k") == "local" and not path and re.search(r"(ast|hir)::attrs::Attrs$", (ltypes.get(l0.get("id")) or "").replace("&mut ", "").strip()):
+                            is_attr = True
                     elif kind == "&mut":
                         is_attr = not path and (ltypes.get(r.get("id")) or "").endswith(AST_ATTRS)
                     if not is_attr:
